@@ -144,6 +144,34 @@ def gen_cases(rng, tier):
                       'newfirst': 'zl', 'tags': {'scenario': 'reload-zippy-' + kind}})
         cases.append({'id': 'Z%d.f' % i, 'cfg': new, 'files': {k: v for k, v in files.items() if k.startswith('aux:')}, 'hist': ['t10', 'q'] + h2 + tail,
                       'sub': 'rsim', 'no_compare': True, 'role': 'fresh', 'tags': {'scenario': 'fresh'}})
+    # ---- ZS: zippychord state that outlives a chord (smart space pending, follow-up context) at the moment of the reload: the first
+    # key typed afterwards is a punctuation key / the follow-up key; both files have the dictionary and smart-space full
+    for i in range(6 if nN < 100 else 60):
+        zc = with_reload_key('(defsrc a b c d . ,)\n(deflayer zl a b c d . ,)\n(defzippy z1.txt on-first-press-chord-deadline 200 '
+                             'idle-reactivate-time 50 smart-space full)', 'lrld')
+        d1 = 'ab\tday\nab c\tmonday\ncd\tnight'
+        files = {'aux:z1.txt': d1, 'new': zc}
+        first = rng.choice([52, 51, 46, 30])          # . , c (the follow-up key) a
+        h2 = ['d%d' % first, 't3', 'u%d' % first, 't20', 'd46', 't3', 'd32', 't5', 'u46', 't2', 'u32', 't300']
+        tail = ['t500', 'q']
+        h1 = ['d30', 't3', 'd48', 't5', 'u30', 't2', 'u48', 't%d' % rng.choice([60, 200])]
+        hist = ['t2'] + h1 + ['W0,new', 'd%d' % F12, 't3', 'u%d' % F12, 't1300', 't3000', 'q'] + h2 + tail
+        cases.append({'id': 'ZS%d' % i, 'cfg': zc, 'files': files, 'hist': hist, 'sub': 'rsim', 'no_compare': True, 'role': 'S', 'twin': 'ZS%d.f' % i,
+                      'newfirst': 'zl', 'tags': {'scenario': 'reload-zippy-pending-state'}})
+        cases.append({'id': 'ZS%d.f' % i, 'cfg': zc, 'files': {'aux:z1.txt': d1}, 'hist': ['t10', 'q'] + h2 + tail,
+                      'sub': 'rsim', 'no_compare': True, 'role': 'fresh', 'tags': {'scenario': 'fresh'}})
+    # ---- VD: a hold-for-duration deadline that is running when the reload happens (its virtual key holds a layer, so no output key
+    # is down and the reload is applied at once); the same key is armed again soon afterwards
+    for i, D in enumerate((300, 500, 900)):
+        vc = with_reload_key('(defsrc a b)\n(deflayer base (hold-for-duration %d vnav) b)\n(deflayer nav _ x)\n(defvirtualkeys vnav (layer-while-held nav))' % D,
+                             'lrld')
+        h2 = ['d30', 't3', 'u30', 't40', 'd48', 't5', 'u48', 't%d' % (D - 120), 'd48', 't5', 'u48', 't200', 'd48', 't5', 'u48', 't300']
+        tail = ['t500', 'q']
+        hist = ['t2', 'd30', 't3', 'u30', 't50', 'W0,new', 'd%d' % F12, 't3', 'u%d' % F12, 't30', 'q'] + h2 + tail
+        cases.append({'id': 'VD%d' % i, 'cfg': vc, 'files': {'new': vc}, 'hist': hist, 'sub': 'rsim', 'no_compare': True, 'role': 'S', 'twin': 'VD%d.f' % i,
+                      'newfirst': 'base', 'tags': {'scenario': 'reload-with-running-vkey-deadline', 'D': D}})
+        cases.append({'id': 'VD%d.f' % i, 'cfg': vc, 'files': {}, 'hist': ['t10', 'q'] + h2 + tail, 'sub': 'rsim', 'no_compare': True,
+                      'role': 'fresh', 'tags': {'scenario': 'fresh'}})
     # ---- N: several files
     for i in range(nN):
         nfiles = rng.randint(2, 4)
